@@ -8,7 +8,7 @@ echo "{" > $OUT
 first=1
 for d in seeded/s*; do
   id=$(basename $d)
-  git -C $REPO checkout -q -- . ; git -C $REPO apply $PWD/$d/patch.diff || { echo "skip $id"; continue; }
+  git -C $REPO checkout -q -- . ; { git -C $REPO apply $PWD/$d/patch.diff 2>/dev/null || git -C $REPO apply -C1 $PWD/$d/patch.diff; } || { echo "skip $id"; continue; }
   [ $first = 1 ] || echo "," >> $OUT; first=0
   echo "\"$id\": {" >> $OUT
   f2=1
